@@ -63,7 +63,18 @@ static void *verif_mmap(size_t len)
 unsigned long G_sig_blocked_at_lock, G_lock_seen, G_sig_at_tlscheck;
 static void os_lock_hook(pthread_mutex_t *m) { if (m == &rcu_registry_lock) { G_lock_seen++; G_sig_blocked_at_lock = (G_os_sig_blocked == ~0UL); } }
 static void os_unlock_hook(pthread_mutex_t *m) { (void) m; }
-static void os_sigmask_hook(int how, const sigset_t *set) { (void) how; (void) set; }
+/* a signal may arrive at any instant at which it is not blocked - in particular between the caller's test of the TLS
+ * pointer and the moment pthread_sigmask(SIG_BLOCK) takes effect.  Its handler uses bp RCU and therefore registers the
+ * thread (the real urcu_bp_register, nested). */
+unsigned long G_sig_fire, G_sig_fired;
+static void os_sigmask_hook(int how, const sigset_t *set)
+{
+	(void) set;
+	if (G_sig_fire && !G_sig_fired && how == SIG_BLOCK && G_os_sig_blocked != ~0UL) {
+		G_sig_fired = 1;
+		urcu_bp_register();		/* the handler's rcu_read_lock() finds the thread unregistered */
+	}
+}
 
 unsigned long in_ok, in_used, in_slot, in_pre;
 #define CHUNK0 (cds_list_entry(registry_arena.chunk_list.next, struct registry_chunk, node))
@@ -166,6 +177,24 @@ void h_register_unregister(void)
 	VERIF_ASSERT(G_lock_seen == 1 && G_sig_blocked_at_lock && G_os_sig_blocked == 0x40 && G_os_locks_held == 0, "bp unregister: under blocked signals + registry lock, mask and lock restored");
 	VERIF_ASSERT(mine->alloc == 0 && mine->ctr == 0 && mine->tid == 0 && cds_list_empty(&registry) && URCU_TLS(urcu_bp_reader) == 0 && CHUNK0->used == 0, "bp unregister: slot freed for reuse, off the registry, reader word cleared");
 	VERIF_COVER(in_pre & 1); VERIF_COVER(!(in_pre & 1));
+}
+
+/* C15.O5 / C19: a signal handler registers the thread inside urcu_bp_register(), just before signals get blocked */
+void h_register_signal(void)
+{
+	struct urcu_bp_reader *mine; struct cds_list_head *p; unsigned long n = 0;
+	CDS_INIT_LIST_HEAD(&registry_arena.chunk_list); CDS_INIT_LIST_HEAD(&registry);
+	urcu_bp_refcount = 1; initialized = 1;
+	G_os_sig_blocked = 0x40; G_lock_seen = 0; G_sig_fire = 1; G_sig_fired = 0;
+	URCU_TLS(urcu_bp_reader) = 0;
+	urcu_bp_register();
+	mine = URCU_TLS(urcu_bp_reader);
+	VERIF_ASSERT(G_sig_fired == 1, "the signal was delivered inside urcu_bp_register, before the mask took effect");
+	VERIF_ASSERT(G_os_sig_blocked == 0x40 && G_os_locks_held == 0, "bp register interrupted by a registering handler: mask and lock restored");
+	for (p = registry.next; p != &registry && n < 3; p = p->next) n++;
+	VERIF_ASSERT(mine != 0 && n == 1 && registry.next == &mine->node && CHUNK0->used == 1 && G_lock_seen == 1 && G_mmap_calls == 1,
+		     "bp register: the TLS pointer is re-checked AFTER all signals are blocked, so a handler that registered the thread in between is noticed - the thread owns exactly ONE slot and is on the registry once (signals cannot break registration)");
+	VERIF_COVER(mine != 0);
 }
 
 /* ---- C16: fork handlers ------------------------------------------------------------------------------ */
